@@ -53,7 +53,7 @@ fn gen_vc(tier: zverif::Tier, f: &mut dyn FnMut(VC) -> bool) {
     seqs_i64(tier, &mut |s| f(VC::IS(s)));
 }
 
-const VC_SPACE: &str = "singles: 47-value u64 grid {0,1,2^7k-1,2^7k,2^7k+1 (k=1..9),2^8k-1,2^8k (k=1..7),2^31,2^32,2^63-1,2^63,MAX-1,MAX} and its signed mirror (v,-v,-v-1,MIN); pairs (concatenation): 12-value subset x grid; sequences: all of length <=3 over the 12-value subset + 9 shapes (ascending, descending, huge first difference, alternating extremes, all-MAX, grid walk, 2^32 straddle) x lengths {0..9,15,16,17,31,32,33,64}";
+const VC_SPACE: &str = "singles: 47-value u64 grid {0,1,2^7k-1,2^7k,2^7k+1 (k=1..9),2^8k-1,2^8k (k=1..7),2^31,2^32,2^63-1,2^63,MAX-1,MAX} and its signed mirror (v,-v,-v-1,MIN); pairs (concatenation): 12-value subset x grid; sequences: all of length <=3 over the 12-value subset + 9 shapes (ascending, descending, huge first difference, alternating extremes, all-MAX, grid walk, 2^32 straddle) x lengths {0..9,15,16,17,31,32,33,64}; coverage audit: + 3 unsigned shapes (1/2/3/4-byte values in every group of four, unsorted with max exactly 2^32-1 / 2^32) and 2 signed shapes (alternating sign around +-64, sorted run through 0) and lengths {127,128,129,300} (2-byte element count) for every shape, {16383,16384} (3-byte count) for two shapes";
 
 // ---------------------------------------------------------------------------------------------
 // VarInt
@@ -108,6 +108,17 @@ fn run_varint(c: &VC) -> R {
             ensure!(m == cat, "bytes", "encode_multiple", "encode_multiple = {}", brief(&m));
             let dm = must(VarInt::decode_multiple(&m), "decode_err", "decode_multiple")?;
             ensure!(dm == vec![*a, *b], "value", "decode_multiple", "{:?}", dm);
+            // (coverage audit) the appending writers used on ONE destination for consecutive values
+            let mut v = vec![0x5Au8];
+            let n1 = must(VarInt::write_to_vec(&mut v, *a), "encode_err", "write_to_vec")?;
+            let n2 = must(VarInt::write_to_vec(&mut v, *b), "encode_err", "write_to_vec")?;
+            ensure!(v[0] == 0x5A && v[1..] == cat[..] && n1 == ea.len() && n2 == eb.len(), "bytes", "write_to_vec/appending", "write_to_vec({a}) then ({b}) into a vector that already held one byte: {} (returned {n1},{n2}), want 5a + {}", brief(&v), brief(&cat));
+            let mut cur = std::io::Cursor::new(vec![0x5Au8]);
+            cur.set_position(1);
+            let n1 = must(VarInt::write_to(&mut cur, *a), "encode_err", "write_to")?;
+            let n2 = must(VarInt::write_to(&mut cur, *b), "encode_err", "write_to")?;
+            let v = cur.into_inner();
+            ensure!(v[0] == 0x5A && v[1..] == cat[..] && n1 == ea.len() && n2 == eb.len(), "bytes", "write_to/appending", "write_to({a}) then ({b}) into one writer: {} (returned {n1},{n2})", brief(&v));
             Ok(Outcome::pass("u64-pair"))
         }
         VC::II(a, b) => {
@@ -294,8 +305,37 @@ fn run_simd(c: &VC) -> R {
     }
 }
 
+/// (coverage audit) the strategy the library itself picks for a sequence must round-trip that sequence.
+/// `choose_optimal_strategy(_signed)` branches on length (>= 16, > 6, > 5), sortedness, max < 2^32 and |v| < 256.
+fn run_chosen(c: &VC) -> R {
+    use zipora::io::var_int_variants::{choose_optimal_strategy, choose_optimal_strategy_signed};
+    match c {
+        VC::US(s) => {
+            let strategy = match zverif::util::catch(|| choose_optimal_strategy(s)) {
+                Ok(st) => st,
+                Err(_) => return Ok(Outcome::skip("the chooser panicked: no encoder was selected")),
+            };
+            let e = VarIntEncoder::new(strategy);
+            let class = format!("chosen={}/{}", strategy_name(strategy), seq_class(strategy, s, None));
+            seq_roundtrip(&class, s, || e.encode_u64_sequence(s), |b| e.decode_u64_sequence(b), "u64")
+        }
+        VC::IS(s) => {
+            let strategy = match zverif::util::catch(|| choose_optimal_strategy_signed(s)) {
+                Ok(st) => st,
+                Err(_) => return Ok(Outcome::skip("the chooser panicked: no encoder was selected")),
+            };
+            let e = VarIntEncoder::new(strategy);
+            let as_u: Vec<u64> = s.iter().map(|&v| v as u64).collect();
+            let class = format!("chosen={}/{}", strategy_name(strategy), seq_class(strategy, &as_u, Some(s)));
+            seq_roundtrip(&class, s, || e.encode_i64_sequence(s), |b| e.decode_i64_sequence(b), "i64")
+        }
+        _ => Ok(Outcome::skip("the chooser works on sequences")),
+    }
+}
+
 pub fn register(reg: &mut Registry) {
     reg.add(fam("VarInt", VC_SPACE, gen_vc, run_varint));
+    reg.add(fam("VarIntEncoder[choose_optimal_strategy]", VC_SPACE, gen_vc, run_chosen));
     for s in [
         VarIntStrategy::Leb128,
         VarIntStrategy::Zigzag,
